@@ -636,7 +636,40 @@ func (g *gen) storeStmt() {
 	a := alts[g.intn(len(alts), "storekind")]
 	v, _ := g.pickVar(a.t, "storevar")
 	g.feat(a.feat)
+	if isParamName(v.name) && g.p.Off["param-to-param-store"] {
+		// known finding: data of one parameter stored into the memory of another parameter (or the receiver) can make
+		// the traversal prune the later visit of that parameter from the call site. The right-hand side is generated
+		// without the other parameters in scope.
+		saved := g.scope
+		var filtered []variable
+		for _, sv := range g.scope {
+			if !isParamName(sv.name) || sv.name == v.name {
+				filtered = append(filtered, sv)
+			}
+		}
+		g.scope = filtered
+		g.prog.Excluded++
+		a.f(v.name)
+		// variables declared by the store alternative (if any) stay out of scope: restore
+		g.scope = saved
+		return
+	}
 	a.f(v.name)
+}
+
+func isParamName(n string) bool {
+	if n == "r" {
+		return true
+	}
+	if len(n) >= 2 && n[0] == 'p' {
+		for _, c := range n[1:] {
+			if c < '0' || c > '9' {
+				return false
+			}
+		}
+		return true
+	}
+	return false
 }
 
 func (g *gen) closureStmt() {
